@@ -46,3 +46,56 @@ func c16R7(c *Ctx, r *Report) {
 		r.Fail("C16-R7", "load sites of LRURevisionCache", "-", "no load of an inserted value found")
 	}
 }
+
+// C16-R8: a revision is evicted from the cache when its channels change without a new revision (Remove, driven by the mutation
+// feed). Get inserts its placeholder BEFORE it reads the bucket, so such an eviction discards the placeholder and the reader's value
+// never lands in the map. A function that reads the bucket document first and inserts afterwards (GetActive: the revision id is only
+// known after the read) can insert what the eviction was meant to discard — the eviction found nothing, and nothing evicts the stale
+// entry later. Such a function must be able to discard the entry it filled on the SUCCESS path too (after detecting an intervening
+// removal); a removal that is only reachable on the load's failure edge cannot do that.
+func c16R8(c *Ctx, r *Report) {
+	r.Rule("C16-R8", "E2 pathrules (ordering)", "a cache function that reads the bucket document before it inserts the cache entry filled from it (loadForDoc) can discard that entry on the load's success edge (re-validation against removals that ran in between)", 1)
+	n := 0
+	for _, fn := range c.ScopeFuncs() {
+		if fn.Signature.Recv() == nil || namedOf(derefType(fn.Signature.Recv().Type())) != "LRURevisionCache" {
+			continue
+		}
+		for _, call := range c.Calls(fn, false, nameIs("(*db.revCacheValue).loadForDoc")) {
+			cv, ok := call.(*ssa.Call)
+			if !ok {
+				continue
+			}
+			inserts := c.Calls(fn, false, nameHasSuffix(".getValue"))
+			reads := c.Calls(fn, false, nameHasSuffix(".GetDocument"))
+			if len(inserts) == 0 || len(reads) == 0 {
+				continue
+			}
+			n++
+			construct := fmt.Sprintf("fn=%s fill-from-earlier-read revalidated-against-removal", c.FuncName(fn))
+			// is some bucket read NOT preceded by the insertion?
+			readFirst := false
+			for _, rd := range reads {
+				if !DominatedBy(fn, rd, NewAvoid().AddInstr(instrs(inserts)...)) {
+					readFirst = true
+				}
+			}
+			if !readFirst {
+				r.Pass("C16-R8", construct, c.Pos(call.Pos()), "the entry is inserted before the bucket is read: a concurrent removal discards the placeholder")
+				continue
+			}
+			e := errValueOf(cv)
+			pos, _ := EdgesOnValue(fn, func(v ssa.Value) bool { return unwrapLoadFree(v) == e })
+			removes := c.CallsThroughHelpers(fn, 2, nameHasSuffix(".removeValueForFailedLoad", ".removeValue"))
+			onSuccess := false
+			for _, rm := range removes {
+				if ReachAfter(call, func(in ssa.Instruction) bool { return in == ssa.Instruction(rm) }, NewAvoid().AddEdge(pos...)) != nil {
+					onSuccess = true
+				}
+			}
+			r.Check("C16-R8", construct, c.Pos(call.Pos()), onSuccess, "the filled entry can be dropped on the success path", "the bucket document is read before the cache entry is inserted, and the entry filled from it can only be removed when the load fails: a removal for a channel change that keeps the revision id, arriving between the read and the insertion, finds nothing to evict, and the entry with the old channels is then inserted and served from then on (GET doc, _bulk_get, replication) to users who lost access")
+		}
+	}
+	if n == 0 {
+		r.Fail("C16-R8", "cache fills from an earlier bucket read", "-", "no loadForDoc site found")
+	}
+}
